@@ -295,7 +295,7 @@ func specEE(r0 uint16, p []byte, i int) uint16 {
 // (wfault() is ghost state: some Write on an underlying io.Writer has failed)
 
 func hexWriterWF(w *hexWriter) bool {
-	return w.w != nil
+	return w.w != nil && len(w.buf) < 78 && len(w.buf)%2 == 0
 }
 
 func countingWriterWF(w *countingWriter) bool {
@@ -307,6 +307,9 @@ func countingWriterWF(w *countingWriter) bool {
 
 //@ func (*hexWriter).flush
 //@ safety C10
+//@ noinv
+//@ requires w != nil && w.w != nil && len(w.buf) <= 78 && len(w.buf)%2 == 0
+//@ ensures w.w != nil && len(w.buf) == 0
 //@ ensures [C13.hex.flush] !old(wfault()) && result == nil ==> !wfault()
 //@ func (*hexWriter).Write
 //@ safety C10
@@ -498,3 +501,24 @@ func specWidthScale(f *Font) float64 {
 //@ loop 1 invariant [C19.widthmap] f != nil && f.FontInfo != nil && widths != nil && q == specWidthScale(f)
 //@ loop 1 back-when [C19.widthmap.entry] has(widths, name) && widths[name] == glyph.WidthX * specWidthScale(f)
 //@ loop 1 back-when [C19.widthmap.frame] forall nm string :: nm != name ==> has(widths, nm) == prev(has(widths, nm)) && widths[nm] == prev(widths[nm])
+
+// C08, hex armour writer over the ghost output tape: otape(k) is the k-th
+// byte accepted by the underlying writer, opos() the number accepted so far.
+// Every input byte is rendered as two lower-case hexadecimal digits, high
+// nibble first, in order; a line feed follows every 39 bytes (78 digits) and
+// the last, shorter line when the writer is closed; nothing else is written.
+func specHexLower(x byte, j int) byte {
+	if j%2 == 0 {
+		return "0123456789abcdef"[x>>4]
+	}
+	return "0123456789abcdef"[x&15]
+}
+
+//@ func (*hexWriter).flush
+//@ ensures [C08.hex.flush] old(len(w.buf)) > 0 && result == nil ==> opos() == old(opos()) + old(len(w.buf)) + 1 && (forall j :: 0 <= j && j < old(len(w.buf)) ==> otape(old(opos()) + j) == old(w.buf[j])) && otape(opos() - 1) == 10 && len(w.buf) == 0
+//@ ensures [C08.hex.flush.empty] old(len(w.buf)) == 0 ==> result == nil && opos() == old(opos()) && len(w.buf) == 0
+
+//@ func (*hexWriter).Write
+//@ loop 1 invariant [C08.hex.line] len(w.buf) < 78 && len(w.buf) % 2 == 0
+//@ loop 1 back-when [C08.hex.pending] len(w.buf) > 0 ==> len(w.buf) == prev(len(w.buf)) + 2 && w.buf[len(w.buf)-2] == specHexLower(c, 0) && w.buf[len(w.buf)-1] == specHexLower(c, 1) && opos() == prev(opos()) && (forall j :: 0 <= j && j < prev(len(w.buf)) ==> w.buf[j] == prev(w.buf[j]))
+//@ loop 1 back-when [C08.hex.flushed] len(w.buf) == 0 ==> prev(len(w.buf)) == 76 && opos() == prev(opos()) + 79 && (forall j :: 0 <= j && j < 76 ==> otape(prev(opos()) + j) == prev(w.buf[j])) && otape(prev(opos()) + 76) == specHexLower(c, 0) && otape(prev(opos()) + 77) == specHexLower(c, 1) && otape(prev(opos()) + 78) == 10
